@@ -1,12 +1,13 @@
 SPECIFICATION Spec
 CONSTANTS
- MaxP = 23
- MaxQ = 11
+ MaxP = 47
+ MaxQ = 23
  MaxK = 7
  Margin = 4
- Variants <- V_com3
- NaiveMaxP = 0
- Mode = "nbr"
- CheckArith = FALSE
+ Variants <- A_one
+ NaiveMaxP = 13
+ Mode = "acc"
+ CheckArith = TRUE
+ SortedBases = TRUE
 INVARIANTS BlockIsDefinition Sound Complete Shape Elements Emit
 CHECK_DEADLOCK FALSE
